@@ -1,12 +1,13 @@
 //! Deterministic simulation with fault injection for pkhuong/woodpile.
 //! See /verif/DESIGN.md.
-#![allow(dead_code, private_interfaces)]
+#![allow(dead_code, private_interfaces, unexpected_cfgs)]
 mod driver;
 mod json;
 mod minimise;
 mod miri;
 mod plan;
 mod prng;
+mod quarantine;
 mod simio;
 mod refcodec;
 mod w_codec;
@@ -27,6 +28,9 @@ pub const PROPS: &[&str] = &[
 ];
 
 pub static WORLDS: &[&'static dyn World] = &[&w_iovec::IovecWorld, &w_codec::CodecWorld, &w_codec::LongWorld, &w_stream::StreamWorld, &w_threads::ThreadsWorld, &w_vtime::VtimeWorld, &w_threads::NfsThreadsWorld, &w_threads::ChunkThreadsWorld];
+
+#[global_allocator]
+static GLOBAL: quarantine::Quarantine = quarantine::Quarantine::new();
 
 const DEFAULT_SEED: u64 = 20261004;
 
@@ -381,7 +385,7 @@ fn main() {
             std::process::exit(selftest(n));
         }
         "calibrate" => {
-            println!("arena_regular_chunk = {}", w_codec::arena_regular_chunk());
+            println!("arena_regular_chunk = {} arena_large_granule = {}", w_codec::arena_regular_chunk(), w_codec::arena_large_granule());
         }
         "plan" => {
             // plan <world> <prop> <seed> <index>: print the generated plan
